@@ -81,6 +81,10 @@ func runName(n nameCase) (*Fail, bool) {
 		if err != nil || back != n.Canon {
 			return failf("chain-not-canonical", "GetName(GetType(%q)) = %q, %v; want %q", n.Name, back, err, n.Canon), true
 		}
+		// the numeric type itself must be the canonical chain's type (NONE elements removed)
+		if cty, err := transform.GetType(n.Canon); err != nil || cty != ty {
+			return failf("chain-type-differs-from-canonical", "GetType(%q) = %#x but GetType(%q) = %#x (%v)", n.Name, ty, n.Canon, cty, err), true
+		}
 		return nil, true
 	case "stream", "headerless":
 		// data on which the variants differ
@@ -208,9 +212,9 @@ func init() {
 						}
 					}
 				}
-				// chains in mixed case
-				for _, ch := range []string{"text+rolzx", "Text+Utf+Bwt+Rank+Zrlt", "rlt+lzp+rolz"} {
-					emit(nameCase{Kind: kind, Name: ch, Canon: strings.ToUpper(ch), Other: "ANS0"})
+				// chains in mixed case, and chains with NONE elements (canonical form drops them)
+				for _, ch := range []string{"text+rolzx", "Text+Utf+Bwt+Rank+Zrlt", "rlt+lzp+rolz", "NONE+LZ", "BWT+NONE+ZRLT", "text+none", "none+none+rlt+none+lzp", "TEXT+UTF+NONE+NONE+NONE+NONE+NONE+LZX"} {
+					emit(nameCase{Kind: kind, Name: ch, Canon: canonChain(ch), Other: "ANS0"})
 				}
 			}
 		})
